@@ -51,6 +51,19 @@ def merge_headers(
     return default_headers + override_headers
 
 
+def proxy_hop_extensions(
+    extensions: typing.Mapping[str, typing.Any],
+) -> dict[str, typing.Any]:
+    """
+    The request extensions to use on the request that is sent to the proxy.
+
+    The "target" extension addresses the origin and is already part of
+    `request.url`. Handed on, it would replace the absolute URL of a forwarded
+    request, or the `host:port` of a CONNECT request, with the origin target.
+    """
+    return {k: v for k, v in extensions.items() if k != "target"}
+
+
 class AsyncHTTPProxy(AsyncConnectionPool):  # pragma: nocover
     """
     A connection pool that sends requests via an HTTP proxy.
@@ -201,7 +214,7 @@ class AsyncForwardHTTPConnection(AsyncConnectionInterface):
             url=url,
             headers=headers,
             content=request.stream,
-            extensions=request.extensions,
+            extensions=proxy_hop_extensions(request.extensions),
         )
         return await self._connection.handle_async_request(proxy_request)
 
@@ -284,7 +297,7 @@ class AsyncTunnelHTTPConnection(AsyncConnectionInterface):
                     method=b"CONNECT",
                     url=connect_url,
                     headers=connect_headers,
-                    extensions=request.extensions,
+                    extensions=proxy_hop_extensions(request.extensions),
                 )
                 connect_response = await self._connection.handle_async_request(
                     connect_request
